@@ -9,94 +9,94 @@ From Coq Require Import Lia.
 Lemma evs_app p q : evs (p ++ q) = evs p ++ evs q.
 Proof. unfold evs. now rewrite flat_map_app. Qed.
 
-Lemma evs_lift p : evs (map WE p) = p.
+Lemma evs_lift p : evs (map GE p) = p.
 Proof. induction p as [|e p IH]; simpl; [reflexivity|]. now rewrite IH. Qed.
 
-Lemma wprog_inv_reach grp progs s0 s : wprog_inv progs s0 -> wreach grp s0 s -> wprog_inv progs s.
+Lemma gprog_inv_reach grp progs s0 s : gprog_inv progs s0 -> greach grp s0 s -> gprog_inv progs s.
 Proof.
   intros P R. induction R as [|s s' R IH St]; auto. destruct St as [s i w rest Ht En].
-  intros j. unfold wset. destruct (Nat.eqb_spec j i) as [->|]; simpl; auto.
+  intros j. unfold gset. destruct (Nat.eqb_spec j i) as [->|]; simpl; auto.
   rewrite <- app_assoc. simpl. rewrite <- Ht. apply IH.
 Qed.
 
 (* what a thread is waiting for, as the rank of that lock or group *)
-Definition waited_rank (rank : node -> nat) (t : wth) : option nat :=
-  match wtodo t with
-  | WE (Acq l) :: _ => Some (rank (NLock (snd l)))
-  | WE (RAcq l) :: _ => Some (rank (NLock (snd l)))
-  | WWait g :: _ => Some (rank (NGroup (snd g)))
+Definition waited_rank (rank : node -> nat) (t : gth) : option nat :=
+  match gtodo t with
+  | GE (Acq l) :: _ => Some (rank (NLock (snd l)))
+  | GE (RAcq l) :: _ => Some (rank (NLock (snd l)))
+  | GWait g :: _ => Some (rank (NGroup (snd g)))
   | _ => None end.
 
 (* the theorem on a state: only that the state runs the programs is used of reachability *)
-Lemma wait_no_deadlock_state (rank : node -> nat) (grp : nat -> list group) (progs : nat -> list wev) n s :
-  wprog_inv progs s ->
-  (forall i, wordered rank (grp i) (progs i)) -> (forall i, wbalanced (progs i)) ->
-  (forall i, n <= i -> progs i = []) -> ~ wdeadlocked grp n s.
+Lemma wait_no_deadlock_state (rank : node -> nat) (grp : nat -> list group) (progs : nat -> list gev) n s :
+  gprog_inv progs s ->
+  (forall i, gordered rank (grp i) (progs i)) -> (forall i, gbalanced (progs i)) ->
+  (forall i, n <= i -> progs i = []) -> ~ gdeadlocked grp n s.
 Proof.
   intros PI O B Idle [[i0 [Hi0 Hu0]] Hall].
-  assert (Small : forall j, wtodo (s j) <> [] -> j < n).
+  assert (Small : forall j, gtodo (s j) <> [] -> j < n).
   { intros j Hu. destruct (le_lt_dec n j) as [Hge|]; auto. exfalso.
     pose proof (Idle j Hge) as E. rewrite (PI j) in E. apply app_eq_nil in E. destruct E as [_ E]. contradiction. }
-  assert (Hold : forall j l b, In (l, b) (scan (evs (wdone (s j)))) -> wtodo (s j) <> []).
-  { intros j l b Hin E. pose proof (B j) as Bj. unfold wbalanced in Bj.
+  assert (Hold : forall j l b, In (l, b) (scan (evs (gdone (s j)))) -> gtodo (s j) <> []).
+  { intros j l b Hin E. pose proof (B j) as Bj. unfold gbalanced in Bj.
     rewrite (PI j), E, app_nil_r in Bj. rewrite Bj in Hin. inversion Hin. }
   set (f := fun i => waited_rank rank (s i)).
   (* an unfinished thread is blocked on something that ranks above every lock it holds and every group it is in *)
-  assert (Above : forall j, wtodo (s j) <> [] ->
+  assert (Above : forall j, gtodo (s j) <> [] ->
             exists m, j < n /\ f j = Some m /\
-              (forall l b, In (l, b) (scan (evs (wdone (s j)))) -> rank (NLock (snd l)) < m) /\
+              (forall l b, In (l, b) (scan (evs (gdone (s j)))) -> rank (NLock (snd l)) < m) /\
               (forall g, In g (grp j) -> rank (NGroup (snd g)) < m)).
-  { intros j Hu. pose proof (Small _ Hu) as Hj. pose proof (Hall j Hj Hu) as St. unfold wstuck in St.
+  { intros j Hu. pose proof (Small _ Hu) as Hj. pose proof (Hall j Hj Hu) as St. unfold gstuck in St.
     destruct (O j) as [OL OW].
-    destruct (wtodo (s j)) as [|[[l'|l'|l'|l'|x|x]|g] r] eqn:T; try contradiction.
+    destruct (gtodo (s j)) as [|[[l'|l'|l'|l'|x|x]|g] r] eqn:T; try contradiction.
     - exists (rank (NLock (snd l'))). split; [exact Hj|]. split; [unfold f, waited_rank; now rewrite T|].
-      destruct (OL (wdone (s j)) l' r (or_introl (eq_trans (PI j) (f_equal _ T)))) as [H1 H2].
+      destruct (OL (gdone (s j)) l' r (or_introl (eq_trans (PI j) (f_equal _ T)))) as [H1 H2].
       split; [intros l b Hin; exact (H1 (l, b) Hin)|exact H2].
     - exists (rank (NLock (snd l'))). split; [exact Hj|]. split; [unfold f, waited_rank; now rewrite T|].
-      destruct (OL (wdone (s j)) l' r (or_intror (eq_trans (PI j) (f_equal _ T)))) as [H1 H2].
+      destruct (OL (gdone (s j)) l' r (or_intror (eq_trans (PI j) (f_equal _ T)))) as [H1 H2].
       split; [intros l b Hin; exact (H1 (l, b) Hin)|exact H2].
     - exists (rank (NGroup (snd g))). split; [exact Hj|]. split; [unfold f, waited_rank; now rewrite T|].
-      destruct (OW (wdone (s j)) g r (eq_trans (PI j) (f_equal _ T))) as [H1 H2].
+      destruct (OW (gdone (s j)) g r (eq_trans (PI j) (f_equal _ T))) as [H1 H2].
       split; [intros l b Hin; exact (H1 (l, b) Hin)|exact H2]. }
   assert (Hex : exists i, i < n /\ f i <> None).
   { exists i0. split; auto. destruct (Above i0 Hu0) as [m [_ [Fm _]]]. congruence. }
   destruct (max_waiter f n Hex) as [k [m [Hk [Fk Hmax]]]].
-  assert (Hku : wtodo (s k) <> []).
+  assert (Hku : gtodo (s k) <> []).
   { intros E. unfold f, waited_rank in Fk. rewrite E in Fk. discriminate. }
-  pose proof (Hall k Hk Hku) as St. unfold wstuck in St. unfold f, waited_rank in Fk.
+  pose proof (Hall k Hk Hku) as St. unfold gstuck in St. unfold f, waited_rank in Fk.
   (* whoever holds a lock is blocked on something ranked above it *)
-  assert (Holder : forall j l b, In (l, b) (scan (evs (wdone (s j)))) -> rank (NLock (snd l)) < m).
+  assert (Holder : forall j l b, In (l, b) (scan (evs (gdone (s j)))) -> rank (NLock (snd l)) < m).
   { intros j l b Hin. destruct (Above j (Hold _ _ _ Hin)) as [m' [Hj [Fj [HL _]]]].
     pose proof (HL l b Hin). pose proof (Hmax j m' Hj Fj). lia. }
-  destruct (wtodo (s k)) as [|[[lk|lk|lk|lk|x|x]|g] r] eqn:T; try contradiction.
+  destruct (gtodo (s k)) as [|[[lk|lk|lk|lk|x|x]|g] r] eqn:T; try contradiction.
   - inversion Fk; subst m. destruct St as [j [_ [Hh|Hh]]]; pose proof (Holder _ _ _ Hh); lia.
   - inversion Fk; subst m. destruct St as [j [_ [Hh|[r' Tj]]]].
     + pose proof (Holder _ _ _ Hh). lia.
-    + assert (Hju : wtodo (s j) <> []) by (rewrite Tj; discriminate).
-      pose proof (Hall j (Small _ Hju) Hju) as Stj. unfold wstuck in Stj. rewrite Tj in Stj.
+    + assert (Hju : gtodo (s j) <> []) by (rewrite Tj; discriminate).
+      pose proof (Hall j (Small _ Hju) Hju) as Stj. unfold gstuck in Stj. rewrite Tj in Stj.
       destruct Stj as [j2 [_ [Hh|Hh]]]; pose proof (Holder _ _ _ Hh); lia.
   - inversion Fk; subst m. destruct St as [j [Hg Hju]].
     destruct (Above j Hju) as [m' [Hj [Fj [_ HG]]]]. pose proof (HG g Hg). pose proof (Hmax j m' Hj Fj). lia.
 Qed.
 
-Lemma acyclic_wait_for_no_deadlock_l (rank : node -> nat) (grp : nat -> list group) (progs : nat -> list wev) n s0 s :
-  winit_ok s0 -> wprog_inv progs s0 ->
-  (forall i, wordered rank (grp i) (progs i)) -> (forall i, wbalanced (progs i)) ->
+Lemma acyclic_wait_for_no_deadlock_l (rank : node -> nat) (grp : nat -> list group) (progs : nat -> list gev) n s0 s :
+  ginit_ok s0 -> gprog_inv progs s0 ->
+  (forall i, gordered rank (grp i) (progs i)) -> (forall i, gbalanced (progs i)) ->
   (forall i, n <= i -> progs i = []) ->
-  wreach grp s0 s -> ~ wdeadlocked grp n s.
+  greach grp s0 s -> ~ gdeadlocked grp n s.
 Proof.
-  intros _ P O B Idle R. exact (wait_no_deadlock_state rank grp progs n s (wprog_inv_reach _ _ _ _ P R) O B Idle).
+  intros _ P O B Idle R. exact (wait_no_deadlock_state rank grp progs n s (gprog_inv_reach _ _ _ _ P R) O B Idle).
 Qed.
 
 (* ------------------------------------------------------------------------------------------- *)
 (* the lock-only theorem is the special case: no waits, no groups *)
 
-Lemma lift_wordered rank prog : ordered rank prog -> wordered (lock_rank rank) [] (map WE prog).
+Lemma lift_gordered rank prog : ordered rank prog -> gordered (lock_rank rank) [] (map GE prog).
 Proof.
   intros O. split.
   - intros p l r Hp. split; [|intros g []].
     intros h Hin.
-    assert (Hd : exists p0 r0, p = map WE p0 /\ r = map WE r0 /\ (prog = p0 ++ Acq l :: r0 \/ prog = p0 ++ RAcq l :: r0)).
+    assert (Hd : exists p0 r0, p = map GE p0 /\ r = map GE r0 /\ (prog = p0 ++ Acq l :: r0 \/ prog = p0 ++ RAcq l :: r0)).
     { destruct Hp as [Hp|Hp]; apply map_eq_app in Hp; destruct Hp as [p0 [q0 [E [E1 E2]]]];
         destruct q0 as [|e0 r0]; try discriminate; simpl in E2; inversion E2; subst;
         exists p0, r0; repeat split; auto. }
@@ -105,18 +105,18 @@ Proof.
     destruct q0; discriminate.
 Qed.
 
-Lemma lift_deadlocked n s : deadlocked n s -> wdeadlocked no_groups n (lift_st s).
+Lemma lift_deadlocked n s : deadlocked n s -> gdeadlocked no_groups n (lift_st s).
 Proof.
   intros [[i [Hi Hu]] Hall]. split.
   - exists i. split; auto. unfold lift_st, lift_th. simpl. destruct (todo (s i)); [contradiction|discriminate].
   - intros j Hj Huj. unfold lift_st, lift_th in Huj. simpl in Huj.
     assert (Hu' : todo (s j) <> []) by (intros E; rewrite E in Huj; apply Huj; reflexivity).
-    pose proof (Hall j Hj Hu') as St. unfold stuck in St. unfold wstuck, lift_st, lift_th. simpl.
+    pose proof (Hall j Hj Hu') as St. unfold stuck in St. unfold gstuck, lift_st, lift_th. simpl.
     destruct (todo (s j)) as [|[l|l|l|l|x|x] r]; simpl; try contradiction.
     + destruct St as [k [Hk Hh]]. exists k. split; auto. now rewrite evs_lift.
     + destruct St as [k [Hk [Hh|[r' Tk]]]]; exists k; split; auto.
       * left. now rewrite evs_lift.
-      * right. exists (map WE r'). now rewrite Tk.
+      * right. exists (map GE r'). now rewrite Tk.
 Qed.
 
 (* Proofs/C18_Conc.v acyclic_no_lock_deadlock_l, obtained from the theorem with waits *)
@@ -127,10 +127,10 @@ Lemma acyclic_no_lock_deadlock_from_wait (rank : lname -> nat) (progs : nat -> l
 Proof.
   intros I P O B Idle R D.
   pose proof (prog_inv_reach _ _ _ P R) as PI.
-  apply (wait_no_deadlock_state (lock_rank rank) no_groups (fun i => map WE (progs i)) n (lift_st s)).
+  apply (wait_no_deadlock_state (lock_rank rank) no_groups (fun i => map GE (progs i)) n (lift_st s)).
   - intros i. unfold lift_st, lift_th. simpl. rewrite <- map_app. now rewrite <- (PI i).
-  - intros i. apply lift_wordered, O.
-  - intros i. unfold wbalanced. rewrite evs_lift. apply B.
+  - intros i. apply lift_gordered, O.
+  - intros i. unfold gbalanced. rewrite evs_lift. apply B.
   - intros i Hi. now rewrite (Idle i Hi).
   - now apply lift_deadlocked.
 Qed.
@@ -138,15 +138,15 @@ Qed.
 (* ------------------------------------------------------------------------------------------- *)
 (* Cluster.Shutdown and watchPeers *)
 
-Ltac wstep_tac i := eapply WRS; [|eapply (WStep _ _ i); [reflexivity|]].
+Ltac gstep_tac i := eapply GRS; [|eapply (GStep _ _ i); [reflexivity|]].
 
 (* as pinned: after Shutdown has taken shutdownLock, Shutdown waits for the group of watchPeers and watchPeers
    for the lock - every unfinished thread is blocked *)
 Lemma sd_pinned_deadlocks o : exists s,
-  wreach (sd_grp o) (start_of (sd_progs_pinned o)) s /\ wdeadlocked (sd_grp o) 2 s.
+  greach (sd_grp o) (start_of (sd_progs_pinned o)) s /\ gdeadlocked (sd_grp o) 2 s.
 Proof.
   eexists. split.
-  - eapply WRS; [apply WR0|]. apply (WStep (sd_grp o) (start_of (sd_progs_pinned o)) 0 (WE (Acq (sd_lock o))) _ eq_refl).
+  - eapply GRS; [apply GR0|]. apply (GStep (sd_grp o) (start_of (sd_progs_pinned o)) 0 (GE (Acq (sd_lock o))) _ eq_refl).
     intros j Hj [H|H]; simpl in H; contradiction.
   - split.
     + exists 0. split; [lia|]. simpl. discriminate.
@@ -156,9 +156,9 @@ Proof.
 Qed.
 
 (* as repaired: the covered goroutine takes no lock; shutdownLock ranks below the group *)
-Lemma sd_repaired_ordered o i : wordered sd_rank (sd_grp o i) (sd_progs_repaired o i).
+Lemma sd_repaired_ordered o i : gordered sd_rank (sd_grp o i) (sd_progs_repaired o i).
 Proof.
-  assert (Nil : forall gs, wordered sd_rank gs []).
+  assert (Nil : forall gs, gordered sd_rank gs []).
   { intros gs. split; intros p x r Hp; exfalso; [destruct Hp as [Hp|Hp]|]; destruct p; discriminate. }
   destruct i as [|[|[|i]]]; simpl; try apply Nil.
   - (* Shutdown: Acq L; Wait G; Rel L *)
@@ -184,12 +184,12 @@ Proof.
 Qed.
 
 Lemma sd_repaired_never_deadlocks o s :
-  wreach (sd_grp o) (start_of (sd_progs_repaired o)) s -> ~ wdeadlocked (sd_grp o) 3 s.
+  greach (sd_grp o) (start_of (sd_progs_repaired o)) s -> ~ gdeadlocked (sd_grp o) 3 s.
 Proof.
   apply (acyclic_wait_for_no_deadlock_l sd_rank (sd_grp o) (sd_progs_repaired o) 3).
   - intros i. reflexivity.
   - intros i. reflexivity.
   - apply sd_repaired_ordered.
-  - intros i. destruct i as [|[|[|i]]]; unfold wbalanced, scan; simpl; try reflexivity; now rewrite hl_eqb_refl.
+  - intros i. destruct i as [|[|[|i]]]; unfold gbalanced, scan; simpl; try reflexivity; now rewrite hl_eqb_refl.
   - intros i Hi. destruct i as [|[|[|i]]]; try lia. reflexivity.
 Qed.
